@@ -43,6 +43,17 @@ def cells(tier, seed):
                             'C': rnd.choice([1, 2, 3])})
                 if rnd.random() < 0.3:
                     out.append(dict(out[-rnd.choice([1, 2])], tensors=True))
+    # histories: consecutive calls with different wavelets of EQUAL filter length and the same channel
+    # count (what a cache keyed on shapes / recycled storage addresses would confuse), list form and
+    # prepared-tensor form updated in place
+    bylen = {}
+    for w in waves:
+        bylen.setdefault(refs.flen(w), []).append(w)
+    groups = [v for k, v in sorted(bylen.items()) if len(v) >= 3 and k <= 20]
+    for g in groups:
+        for _ in range(1 if tier == 'quick' else 4):
+            out.append({'sequence': rnd.sample(g, min(len(g), 4)), 'mode': rnd.choice(MODES4), 'shape': [rnd.choice([6, 8, 9]), rnd.choice([6, 7, 12])],
+                        'N': 1, 'C': rnd.choice([2, 3]), 'form': 2, 'wc': g[0], 'wr': g[0]})
     rnd.shuffle(out)
     return out
 
@@ -150,8 +161,61 @@ def synthesis(cell, kind, coeffs):
     return out
 
 
+def sequence_cell(cell, seed):
+    import torch
+    from pytorch_wavelets.dwt import lowlevel
+    out = []
+    sp = cell['shape']
+    x = util.make_input('randn', [cell['N'], cell['C']] + sp, seed)
+    prepared = {}
+    for rep in range(2):
+        for w in cell['sequence']:
+            c = dict(cell, wc=w, wr=w, step='rep%d' % rep)
+            c.pop('sequence')
+            rs, a = analysis(c, 'sequence', x)
+            out.extend(rs)
+            if a is not None:
+                out.extend(synthesis(c, 'sequence', util.make_input('randn', list(a.shape), seed + 3)))
+    # prepared tensors updated in place between calls (same storage, new taps)
+    ws = cell['sequence']
+    c0 = dict(cell, wc=ws[0], wr=ws[0])
+    c0.pop('sequence')
+    with util.default_dtype(torch.float64):
+        fa, fs = tensor_filts(c0, False, True), tensor_filts(c0, True, True)
+        for w in ws[1:3]:
+            c = dict(c0, wc=w, wr=w, step='in-place update of the prepared kernel')
+            okp, ya0 = util.call_lib(lowlevel.afb2d_nonsep, x, fa, cell['mode'])
+            fa.copy_(tensor_filts(c, False, True))
+            fs_prev_ok = util.call_lib(lowlevel.sfb2d_nonsep, util.make_input('randn', [cell['N'], cell['C'], 4, 5, 5], seed), fs, cell['mode'])[0]
+            fs.copy_(tensor_filts(c, True, True))
+            ok1, y1 = util.call_lib(lowlevel.afb2d, x, filts(c, False), cell['mode'])
+            ok2, y2 = util.call_lib(lowlevel.afb2d_nonsep, x, fa, cell['mode'])
+            case = {'cell': c, 'dir': 'analysis', 'input': 'prepared-kernel-updated-in-place'}
+            tol = 1e-11 * gain(c, False) * float(x.abs().max())
+            if ok1 and ok2:
+                a = y1.reshape(y1.shape[0], -1, 4, y1.shape[-2], y1.shape[-1])
+                b = y2.reshape(y2.shape[0], -1, 4, y2.shape[-2], y2.shape[-1])
+                okc, d, ratio = util.compare('afb2d_nonsep vs afb2d', b, util.np64(a), tol)
+                out.append(res(HELD, case, 'M-REF', ratio=ratio) if okc else res(VIOLATED, case, 'M-REF', d, ratio=ratio))
+                co = util.make_input('randn', list(a.shape), seed + 5)
+                ll, lh, hl, hh = [co[:, :, i].contiguous() for i in range(4)]
+                ok3, r1 = util.call_lib(lowlevel.sfb2d, ll, lh, hl, hh, filts(c, True), cell['mode'])
+                ok4, r2 = util.call_lib(lowlevel.sfb2d_nonsep, co, fs, cell['mode'])
+                case = {'cell': c, 'dir': 'synthesis', 'input': 'prepared-kernel-updated-in-place'}
+                if ok3 and ok4:
+                    okc, d, ratio = util.compare('sfb2d_nonsep vs sfb2d', r2, util.np64(r1), 1e-11 * gain(c, True) * float(co.abs().max()))
+                    out.append(res(HELD, case, 'M-REF', ratio=ratio) if okc else res(VIOLATED, case, 'M-REF', d, ratio=ratio))
+                elif ok3 != ok4:
+                    out.append(res(VIOLATED, case, 'M-REF', 'one implementation raised'))
+            elif ok1 != ok2:
+                out.append(res(VIOLATED, case, 'M-REF', 'one implementation raised'))
+    return out
+
+
 def run_cell(cell, seed):
     import torch
+    if cell.get('sequence'):
+        return sequence_cell(cell, seed)
     out = []
     sp = cell['shape']
     rnd = core.rng_for(seed, PROP, 'k', str(cell))
